@@ -160,6 +160,19 @@ func main() {
 		os.Exit(cmdVerify(*dir, *only, *timeout, *outDir, *verbose))
 	case "check":
 		os.Exit(cmdCheck(os.Args[2:]))
+	case "replay":
+		// re-run a stored replay file against the current working tree of /repo
+		if len(os.Args) < 3 {
+			fmt.Fprintln(os.Stderr, "usage: hvc replay <file>")
+			os.Exit(2)
+		}
+		v := &Verifier{}
+		rr := v.runReplayFile(os.Args[2], nil)
+		fmt.Printf("hvc: replay %s: %s\n", os.Args[2], rr.Detail)
+		if rr.Reproduced {
+			os.Exit(1)
+		}
+		os.Exit(0)
 	default:
 		fmt.Fprintln(os.Stderr, "unknown command", os.Args[1])
 		os.Exit(2)
